@@ -48,6 +48,109 @@ func isOptionConstructor(f *ssa.Function, structName string) bool {
 	return isStruct
 }
 
+// isConfigContext: g is an option closure (or the option constructor itself) or an
+// exported Set* setter — the places the property allows configuration to be written from.
+func isConfigContext(g *ssa.Function, structName string) bool {
+	root := outermost(g)
+	if isOptionConstructor(root, structName) {
+		return true
+	}
+	return g.Parent() == nil && strings.HasPrefix(g.Name(), "Set") && g.Signature.Recv() != nil && g.Object() != nil && g.Object().Exported()
+}
+
+// usedOnlyAsOptionValue: f is never called directly; every mention of it is as a value
+// inside an option constructor (`return (*T).markOnce`).
+func usedOnlyAsOptionValue(p *Prog, f *ssa.Function, structName string) bool {
+	if f.Object() != nil && f.Object().Exported() {
+		return false
+	}
+	uses := 0
+	for _, g := range p.Funcs() {
+		if !p.InScope(g) || g == f {
+			continue
+		}
+		for _, b := range g.Blocks {
+			for _, in := range b.Instrs {
+				if ci, ok := in.(ssa.CallInstruction); ok {
+					if sc := ci.Common().StaticCallee(); sc == f {
+						// a synthetic thunk / bound wrapper forwarding to f counts as a mention
+						if g.Synthetic == "" {
+							return false
+						}
+					}
+				}
+				for _, op := range in.Operands(nil) {
+					if op == nil || *op == nil {
+						continue
+					}
+					v := *op
+					if fn, ok := v.(*ssa.Function); ok && (fn == f || (fn.Synthetic != "" && callsOnly(fn, f))) {
+						if _, isCall := in.(ssa.CallInstruction); isCall && in.(ssa.CallInstruction).Common().Value == v {
+							continue // counted above
+						}
+						if !isOptionConstructor(outermost(g), structName) {
+							return false
+						}
+						uses++
+					}
+				}
+			}
+		}
+	}
+	return uses > 0
+}
+
+// callsOnly: the synthetic wrapper w does nothing but call f.
+func callsOnly(w, f *ssa.Function) bool {
+	n := 0
+	for _, b := range w.Blocks {
+		for _, in := range b.Instrs {
+			if ci, ok := in.(ssa.CallInstruction); ok {
+				if ci.Common().StaticCallee() != f {
+					return false
+				}
+				n++
+			}
+		}
+	}
+	return n == 1
+}
+
+// calledOnlyFromConfigContexts: the unexported f is only ever called (statically) from
+// option closures, Set* setters or helpers of which the same holds.
+func calledOnlyFromConfigContexts(p *Prog, f *ssa.Function, structName string, d int) bool {
+	if d > 3 || (f.Object() != nil && f.Object().Exported()) {
+		return false
+	}
+	n := 0
+	for _, g := range p.Funcs() {
+		if !p.InScope(g) {
+			continue
+		}
+		for _, b := range g.Blocks {
+			for _, in := range b.Instrs {
+				for _, op := range in.Operands(nil) {
+					if op != nil && *op == ssa.Value(f) {
+						ci, isCall := in.(ssa.CallInstruction)
+						if !isCall || ci.Common().Value != ssa.Value(f) {
+							return false // escapes as a value
+						}
+					}
+				}
+				ci, ok := in.(ssa.CallInstruction)
+				if !ok || ci.Common().StaticCallee() != f {
+					continue
+				}
+				n++
+				if !(isConfigContext(g, structName) || (g.Parent() == nil && calledOnlyFromConfigContexts(p, g, structName, d+1))) {
+					return false
+				}
+			}
+		}
+	}
+	return n > 0
+}
+
 func checkWriters(c *Ctx, p *Prog, rule string, specs []writerSpec) int {
 	n := 0
 	for _, sp := range specs {
@@ -76,6 +179,10 @@ func checkWriters(c *Ctx, p *Prog, rule string, specs []writerSpec) int {
 						c.Discharge(rule, construct, pos, "configuration setter (excluded by the property: must complete before concurrent use)")
 					case f.Parent() == nil && isAddrTakenParamOfCtor(base, f):
 						c.Discharge(rule, construct, pos, "constructor helper writing through its parameter")
+					case f.Parent() == nil && usedOnlyAsOptionValue(p, f, sp.Type):
+						c.Discharge(rule, construct, pos, "function used only as the option value an option constructor returns (runs before the object is shared)")
+					case f.Parent() == nil && calledOnlyFromConfigContexts(p, f, sp.Type, 0):
+						c.Discharge(rule, construct, pos, "unexported helper called only by options / Set* setters")
 					default:
 						c.Violate(rule, construct, pos, "field "+sp.Type+"."+fld+" is written on an operational path (not an option, constructor or Set* setter) without synchronisation: concurrent readers race with it", nil)
 					}
